@@ -79,9 +79,15 @@ class C01(Property):
             cols = list(range(20))
             if cfg["permute"]:
                 rng.shuffle(cols)
-            return {"op": "new", "sess": sess, "h": "m%d" % world.model["n"],
-                    "wrap": rng.pick(["Motl", "EmMotl", "EmMotl(Motl)"]),
-                    "cols": cols, "rows": gen_motl_rows(rng, n, cfg["nan_rate"], cfg["wild"])}
+            st = {"op": "new", "sess": sess, "h": "m%d" % world.model["n"],
+                  "wrap": rng.pick(["Motl", "EmMotl", "EmMotl(Motl)"]),
+                  "cols": cols, "rows": gen_motl_rows(rng, n, cfg["nan_rate"], cfg["wild"])}
+            style = rng.pick(["default", "default", "shuffled", "gaps"])
+            if style == "shuffled":
+                st["index"] = rng.perm(n)
+            elif style == "gaps":
+                st["index"] = sorted(rng.sample(range(3 * n + 2), n))
+            return st
         if op == "write":
             return {"op": "write", "sess": sess, "h": rng.pick(handles), "path": rng.pick(written),
                     "api": rng.pick(["Motl.write_out", "EmMotl.write_out"]), "io": True,
@@ -120,6 +126,9 @@ class C01(Property):
             mat = rows_to_matrix(step["rows"])
             names = [MOTL_COLS[j] for j in step["cols"]]
             df = pd.DataFrame({nm: mat[:, MOTL_COLS.index(nm)] for nm in names}, columns=names)
+            if step.get("index") and len(step["index"]) == len(df):
+                df.index = step["index"]   # a sorted / filtered table: same particles in the same row order
+                world.probes["nondefault_table_index"] += 1
             wrap = step["wrap"]
 
             def build():
@@ -280,10 +289,13 @@ class C01(Property):
     def shrink_step(self, step):
         if step["op"] == "new":
             rows = step["rows"]
+            if step.get("index"):
+                yield {k: v for k, v in step.items() if k != "index"}
             if len(rows) > 1:
-                yield dict(step, rows=rows[: len(rows) // 2])
-                yield dict(step, rows=rows[len(rows) // 2:])
-                yield dict(step, rows=rows[:-1])
+                for keep in (slice(0, len(rows) // 2), slice(len(rows) // 2, None), slice(0, len(rows) - 1)):
+                    s2 = dict(step, rows=rows[keep])
+                    s2.pop("index", None)
+                    yield s2
             if step["cols"] != list(range(20)):
                 yield dict(step, cols=list(range(20)))
                 cols = list(step["cols"])
